@@ -387,6 +387,13 @@ def classify_cases(ctx, run, corpus):
                 det[rt] = (w.gen[c].get("steps") if s == "not-generated" else w.compile_errors.get(c, [])[:2])
             c01.append({"universe": ui, "root": r, "status": sorted(kinds), "detail": det,
                         "corpus": corpus[ui]["file"] if ui < len(corpus) else None, "rust": src})
+            if "compile-error" in kinds and not (ui < len(corpus) and corpus[ui].get("c01") == "compile-error"):
+                # typify accepted the schemars document of a serde-derivable type and the generated module does not
+                # compile: no T' exists for the values of T.  Never a skipped case.
+                codes = sorted(set(str(e[0]) for rt, (s_, c_) in st.items() for e in w.compile_errors.get(c_, [])))
+                viol.append({"kind": "generated-code-does-not-compile", "rustc_error_codes": codes, "universe_index": ui,
+                             "root": r, "rust": src, "document": doc, "detail": det, "universe": u})
+                continue
             if len(kinds) > 1:
                 viol.append({"kind": "route-divergence", "universe_index": ui, "root": r, "rust": src, "document": doc,
                              "status": bad, "detail": det})
@@ -768,7 +775,7 @@ def run(ctx):
     dd_new = [d for d in run_.dump_diffs if (d["universe"], d["root"]) not in known_r]
     ctx.oblige("routes agree: IR dumps equal up to ids, names, Box placement and transparent newtypes (%d documents)" % len(run_.docs),
                not dd_new, json.dumps(dd_new[:1])[:1800])
-    ctx.oblige("routes agree: no unclassified route divergence at add / compile time", not viol_cases,
+    ctx.oblige("every accepted document yields modules that compile, and no unclassified route divergence at add / compile time", not viol_cases,
                json.dumps(viol_cases[:1])[:1800])
 
     # ---- K5-origin
@@ -842,6 +849,7 @@ def run(ctx):
                                    "origin type as the same value",
                        "broken_obligations": [b[0] for b in ctx.broken()]})
         reported = True
+    viol_cases.sort(key=lambda v: len(v.get("rust", "")))
     for v in (viol_cases[:1] + [dict(d, kind="route-value-divergence", rust=rustgen.rs_universe(us[d["universe"]])) for d in rd_new[:1]]
               + [dict(d, kind="route-dump-divergence", rust=rustgen.rs_universe(us[d["universe"]])) for d in dd_new[:1]]):
         if not reported:
